@@ -5,6 +5,7 @@
 import Bita.Proofs.CloneSound
 import Bita.Proofs.CloneNoJunk
 import Bita.Proofs.StepOrder
+import Bita.Proofs.Reuse
 
 namespace Bita.Props.C06
 open Bita Bita.Spec
@@ -60,5 +61,36 @@ theorem clone_steps_as_modelled :
     Gen.cloneStepOrder = ["try_init", "banner", "pin", "open_output", "device_check", "scan_output", "reorder",
                           "seed_stdin", "seed_files", "fetch", "flush", "resize", "verify_output"] :=
   Proofs.clone_step_order_fact
+
+/-- **Reuse after an edit** (C10 ∘ C06).  The archive describes the source `P1 ++ S` cut by its own
+chunker; one of the seeds is `P2 ++ S` (any other seeds, any prior output); both chunkings place a
+boundary at least one hash window into `S`.  Then the one `read_chunks` request of a successful
+clone names no descriptor of a source chunk that starts at or after that boundary - or a
+collision is exhibited. -/
+theorem unchanged_tail_not_fetched (H : Bytes → Bytes) (hH : ∀ x, (H x).length = 64)
+    (decomp : Nat → Bytes → Nat → Option Bytes) (features : List Nat)
+    (readAt : Nat → Nat → Option Bytes) (readChunks : List (Nat × Nat) → List (Option Bytes))
+    (opts : CloneOpts) (prior : Bytes) (seeds : List Bytes)
+    (a : Archive) (P1 P2 S : Bytes) (B : Nat)
+    (hinit : tryInit H features readAt = .ok a)
+    (hd : Describes H a (P1 ++ S) ((chunkAll a.config (P1 ++ S)).map fun c => slice (P1 ++ S) c.1 c.2))
+    (hitems : ∀ ranges, (readChunks ranges).length = ranges.length)
+    (hroll : ∀ n, a.config ≠ .fixed n)
+    (hseed : P2 ++ S ∈ seeds)
+    (hB : windowOf a.config ≤ B) (hBS : B ≤ S.length)
+    (h1 : IsEnd (chunkAll a.config (P1 ++ S)) (P1.length + B))
+    (h2 : IsEnd (chunkAll a.config (P2 ++ S)) (P2.length + B)) :
+    let r := Clone.run H decomp features readAt readChunks opts prior seeds
+    r.result = .ok →
+      (∃ fetched : List Descr,
+        r.requests = [ArchReq.readAt 0 Gen.preHeaderSize,
+                      ArchReq.readAt Gen.preHeaderSize (a.headerSize - Gen.preHeaderSize),
+                      ArchReq.readChunks (fetched.map fun d => (d.archiveOffset, d.archiveSize))] ∧
+        (∀ d ∈ fetched, d ∈ a.chunks) ∧
+        ∀ c ∈ chunkAll a.config (P1 ++ S), P1.length + B ≤ c.1 →
+          ∀ d ∈ fetched, d.checksum ≠ hashTruncate (H (slice (P1 ++ S) c.1 c.2)) a.hashLength) ∨
+      Collision H a.hashLength ((chunkAll a.config (P1 ++ S)).map fun c => slice (P1 ++ S) c.1 c.2) :=
+  Proofs.unchanged_tail_not_fetched H hH decomp features readAt readChunks opts prior seeds a P1 P2 S B
+    hinit hd hitems hroll hseed hB hBS h1 h2
 
 end Bita.Props.C06
